@@ -106,6 +106,18 @@ abbrev Runner := Nat → Option Nat → Out × Nat
 def detachedOut : Out := ⟨.detached, true, true⟩   -- `Output::default()` streams are empty
 def unknownOut (tc : TC) : Out := ⟨.unknown, tc.accEmpty, tc.accEmpty⟩
 
+/-- `config.wait` as it is sat out: no longer than what is left of the document limit
+    (`timeout_left().map_or(wait.timeout, |left| left.min(wait.timeout))`; `Instant::duration_since`
+    saturates, like `Nat` subtraction) -/
+def cappedWait (limit : Option Nat) (tc : TC) (now : Nat) : Nat :=
+  match limit with
+  | some l => min tc.wait (l - now)
+  | none => tc.wait
+
+/-- the time on the document's clock at which the runner of `tc` is called when the loop reaches
+    `tc` at time `now` -/
+def startOf (limit : Option Nat) (tc : TC) (now : Nat) : Nat := now + cappedWait limit tc now
+
 /-- the loop of `StatefulExecutor::execute_all`; `idx` = index of the head of `tcs`, `now` = time
     elapsed since the start, `acc` = outputs so far, `limits` = the limits handed to the runner -/
 def execLoop (limit : Option Nat) (runner : Runner) :
@@ -113,8 +125,9 @@ def execLoop (limit : Option Nat) (runner : Runner) :
     ExecResult × List (Option Nat)
   | [], _, _, acc, limits => (.ok acc, limits)
   | tc :: rest, idx, now, acc, limits =>
-    -- since fix 5800e20 the wait of the test case comes before the remaining time is looked at
-    let now := now + tc.wait
+    -- since fix 5800e20 the wait of the test case comes before the remaining time is looked at;
+    -- the wait is sat out no longer than what is left of the document limit
+    let now := startOf limit tc now
     let remaining := limit.map (· - now)          -- `Instant::duration_since` saturates
     let (isGlobal, lim) := effective tc.timeout remaining
     let (o, elapsed) := runner idx lim
